@@ -73,9 +73,9 @@ def cases(rng, tier):
     # --- mesh geometry
     for n in range(1, 13):  # every 1-d size
         yield dict(kind="mesh", mesh=gen_spec(rng, n=[n]), sub=rng.getrandbits(32))
-    for _ in range(40 if quick else 400):
+    for _ in range(100 if quick else 600):
         yield dict(kind="mesh", mesh=gen_spec(rng, exact=True, max_cells=4096), sub=rng.getrandbits(32))
-    for _ in range(120 if quick else 1500):
+    for _ in range(400 if quick else 3000):
         big = rng.random() < 0.3
         yield dict(kind="mesh", mesh=gen_spec(rng, max_cells=10 ** 6, sizes=(list(range(1, 41)) if big else SIZES)),
                    sub=rng.getrandbits(32))
@@ -87,13 +87,12 @@ def cases(rng, tier):
     three = list(itertools.product([1, 2, 3], repeat=3))
     four = list(itertools.product([1, 2, 3], repeat=4))
     if quick:
-        three = rng.sample(three, 12)
-        four = rng.sample(four, 6)
+        four = rng.sample(four, 16)
     for shape in three + four:
         yield field_case(rng, gen_spec(rng, n=list(shape)))
-    for _ in range(45 if quick else 700):
+    for _ in range(260 if quick else 2500):
         yield field_case(rng, gen_spec(rng, max_cells=(48 if quick else 96)))
-    for _ in range(3 if quick else 30):
+    for _ in range(6 if quick else 40):
         yield field_case(rng, gen_spec(rng, max_cells=(120 if quick else 200)), nvdim=1)
 
 
